@@ -148,7 +148,7 @@ package utils
 //@ func (*JobsOrderByQueues).createLeafNode$1
 //@   props C16
 //@   requires jo != nil && orderFnsOK(jo.ssn) && framework.isPG(l) && framework.isPG(r)
-//@   note the requires are not checked at call sites: the closure is only called by container/heap (through priorityQueue.Less) on two elements of a leaf queue, which are non-nil jobs (invariant leafItemsOK below)
+//@   note the requires are not checked at call sites: the closure is only called by container/heap (through priorityQueue.Less) on two elements of a leaf queue, which are non-nil jobs (getNextNode's trusted clause [leafHoldsJobs])
 //@   pure
 //@   ensures [fifoFallback] framework.jobNeutral(jo.ssn, l, r) ==> result == (jo.options.VictimQueue != framework.fifoLessJob(framework.pgOf(l), framework.pgOf(r)))
 //@   ensures [firstPluginDecides] forall k int :: framework.jobDecider(jo.ssn, k, l, r) ==> result == (jo.options.VictimQueue != (framework.jobCmp(jo.ssn, k, l, r) < 0))
@@ -166,7 +166,8 @@ package utils
 //   mapOK(jo)    every registered node exists and has a queue and a children queue
 //   parentsOK()  a parent pointer leads to a node with a queue and a children queue (stated for every node that has
 //                a parent pointer; only ensureAncestorChainForPush assigns one, and nodes are unregistered, never destroyed)
-// What is NOT carried (see the trusted helpers below): the contents of the priority queues of OTHER nodes while one
+// What is NOT carried (see the `trust` clauses of getNextNode / traverseToLeaf / ensureAncestorChainForPush and the
+// assumption [rootHoldsNodes] of PopNextJob below): the contents of the priority queues of OTHER nodes while one
 // queue is pushed to / popped from. That needs "distinct priority queues own disjoint backing arrays", which the
 // engine cannot keep across an allocation (a zero-length backing array has no cell whose allocation could be named).
 //@ define mapOK(jo *JobsOrderByQueues) bool = forall q in jo.queueNodes :: jo.queueNodes[q] != nil && jo.queueNodes[q].children != nil && jo.queueNodes[q].queue != nil
